@@ -1221,6 +1221,30 @@ class _VisitDirectiveWithout:
         return _directive_visit_post(s, False)
 
 
+# ---- errors of the attribute constructors: one-sided (`raise X => a statement of that kind was pending`); when exactly
+#      they are raised is C05's (names) and C12's (constant values) business
+def _implies_for(view):
+    return {
+        "InvalidNameError": lambda s: NOT(PENDING(view(s)).tag == T_NONE),
+        "InvalidTypeError": lambda s: PENDING(view(s)).tag == T_CONST,
+        "InvalidConstantValueError": lambda s: PENDING(view(s)).tag == T_CONST,
+    }
+
+
+for _q, _view in ([(DTB + "." + n, (lambda s: s.old)) for n in
+                   ("on_attribute_comment", "on_field", "on_constant", "on_padding_field")] +
+                  [(PTP + "." + n, (lambda s: B(s.old))) for n in
+                   ("_flush_comment", "visit_line", "visit_identifier", "visit_statement_field", "visit_statement_constant",
+                    "visit_statement_padding_field", "visit_statement_service_response_marker",
+                    "visit_statement_directive_with_expression", "visit_statement_directive_without_expression")]):
+    _c = _REG.contracts[_q]
+    for _x in ("InvalidNameError", "InvalidTypeError", "InvalidConstantValueError"):
+        assert _c.raises.pop(_x, "missing") is None, (_q, _x)
+    _c.raises_implies = _implies_for(_view)
+_vl = _REG.contracts[PTP + ".visit_line"]  # a non-empty line flushes nothing, hence raises nothing
+_vl.raises_implies = {x: (lambda s, f=f: AND(EQ(s.node.text, ""), f(s))) for x, f in _vl.raises_implies.items()}
+
+
 # ------------------------------------------------------------------------------------------------ level 4: the traversal
 import os as _os
 from pyvc import frontend as _frontend
@@ -1233,7 +1257,7 @@ inline_ok(PTP + ".generic_visit", PTP + ".visit_definition",
           why="dispatch target on the root node: inlined, whatever it does is checked against the end-of-input requirement")
 
 GHOST = dict(g_eol=Int, g_open=Bool, g_tag=Int, g_type=ObjOf(SERIALIZABLE), g_name=Str, g_value=ObjOf(ANY), g_doc=Str,
-             g_hdr_open=Bool, g_hdr=Str, g_count=Int)
+             g_line=Int, g_hdr_open=Bool, g_hdr=Str, g_count=Int)
 
 
 def ghost_of(s):
@@ -1242,10 +1266,11 @@ def ghost_of(s):
     open      the last statement line was an attribute statement and neither a blank line nor another statement followed:
               its doc window is still open; tag/T/name/value describe that statement, doc is its doc text so far
               (same-line comment plus the comment-only lines that followed),
+    line      the 1-based line number of that statement (C17),
     hdr_open  no statement and no blank line yet in this section: the comment block so far (hdr) is the section's header,
     count     number of attribute statements seen so far."""
     return _View(eol=s.g_eol, open=s.g_open, tag=s.g_tag, T=s.g_type, name=s.g_name, value=s.g_value, doc=s.g_doc,
-                 hdr_open=s.g_hdr_open, hdr=s.g_hdr, count=s.g_count)
+                 line=s.g_line, hdr_open=s.g_hdr_open, hdr=s.g_hdr, count=s.g_count)
 
 
 def _upd(g, **kw):
@@ -1274,6 +1299,7 @@ def inv_clauses(p, g):
             g.tag >= 1, g.tag <= 3, pend.tag == g.tag, SAME(pend.T, g.T),
             IMPLIES(NOT(g.tag == T_PAD), lambda: EQ(pend.name, g.name)),
             IMPLIES(g.tag == T_CONST, lambda: SAME(pend.value, g.value)))),
+        "open-statement-is-on-an-earlier-or-this-line": IMPLIES(g.open, lambda: AND(1 <= g.line, g.line <= 1 + g.eol)),
         "collected-comment-is-its-doc": IMPLIES(g.open, lambda: AND(NOT(p._comment_is_header), EQ(p._comment, g.doc))),
         "header-iff-header-window": IFF(p._comment_is_header, g.hdr_open),
         "collected-comment-is-the-header": IMPLIES(g.hdr_open, lambda: EQ(p._comment, g.hdr)),
@@ -1362,7 +1388,7 @@ class _DrvCommentOnly:
 def _attr_line_post(s, tag, T, name, value):
     g = ghost_of(s)
     g2 = _upd(g, open=True, tag=tag, T=T, name=name, value=value, doc=_doc_of_line_comment(s), hdr_open=False,
-              count=g.count + 1)
+              count=g.count + 1, line=1 + g.eol)
     out = inv_clauses(s.pr, g2)
     out.update(closing_clauses(s, g))
     return out
